@@ -13,7 +13,53 @@ let depfun s =
     | _ -> failwith "dep") (split ';' s);
   ((fun o -> try Hashtbl.find tbl (int_of_nat o) with Not_found -> []), Hashtbl.length tbl)
 let show l = if l = [] then "_" else String.concat "." (List.map string_of_int (List.sort_uniq compare (List.map int_of_nat l)))
+(* lookup <strict 0/1> <content> <disk> <reader> <script>
+     content: w=o.o;w=o      (what each pack holds; the object looked up is 0)
+     disk:    packs/loose/deleting        e.g. 1.2/1/0
+     reader:  cache/iopen/dopen           e.g. 9/_/_
+     script:  tokens joined by ',': aW (a pack appears), dW (a pack is deleted), l (the loose file is deleted),
+              r (the reader's next step that touches the repository: steps that touch nothing run before it),
+              r:W.W (the same where the pack directory is read: the order in which the cache then lists the packs)
+   answer: <Found|Missing|Running> <bad 0/1> <trace of the reader's steps: pW probe, s directory read at the end of an attempt,
+           L loose file, R second directory read> *)
+let pc_kind (r : reader) = match r.ctl with
+  | Scan (_, _, w :: _, _, _) -> "p" ^ string_of_int (int_of_nat w)
+  | Scan (_, _, [], _, _) -> "s"
+  | Loose -> "L" | Rescan2 -> "R" | Found -> "F" | Missing -> "M"
+let lookup strict content disk reader script =
+  let tbl = Hashtbl.create 16 in
+  List.iter (fun x -> match String.split_on_char '=' x with
+    | [w; os] -> Hashtbl.replace tbl (int_of_string w) (List.map (fun d -> nat_of_int (int_of_string d)) (split '.' os))
+    | _ -> failwith "content") (split ';' content);
+  let cont w = try Hashtbl.find tbl (int_of_nat w) with Not_found -> [] in
+  let nats s = List.map nat_of_int (ints s) in
+  let d = match String.split_on_char '/' disk with
+    | [p; l; dl] -> { packs = nats p; loose = (l = "1"); deleting = (dl = "1") } | _ -> failwith "disk" in
+  let r = match String.split_on_char '/' reader with
+    | [c; io; dop] -> start (nats c) (nats io) (nats dop) | _ -> failwith "reader" in
+  let st = ref ((d, r), false) and trace = ref [] in
+  let step ev = st := sys_step cont O strict !st ev in
+  let rec silents () = let ((_, r), _) = !st in if silent r then (step (EvRead []); silents ()) in
+  List.iter (fun tok ->
+    if tok = "l" then step (EvEnv EDelLoose)
+    else if tok.[0] = 'a' then step (EvEnv (EAdd (nat_of_int (int_of_string (String.sub tok 1 (String.length tok - 1))))))
+    else if tok.[0] = 'd' then step (EvEnv (EDelPack (nat_of_int (int_of_string (String.sub tok 1 (String.length tok - 1))))))
+    else begin
+      silents ();
+      let ((_, r), _) = !st in
+      if not (finished r) then begin
+        trace := pc_kind r :: !trace;
+        let order = if String.length tok > 2 then nats (String.sub tok 2 (String.length tok - 2)) else [] in
+        step (EvRead order)
+      end else trace := "-" :: !trace
+    end) (split ',' script);
+  silents ();
+  let ((_, r), bad) = !st in
+  Printf.sprintf "%s %s %s" (match r.ctl with Found -> "Found" | Missing -> "Missing" | _ -> "Running")
+    (if bad then "1" else "0") (if !trace = [] then "_" else String.concat "," (List.rev !trace))
+
 let handle = function
+  | ["lookup"; strict; content; disk; reader; script] -> lookup (strict = "1") content disk reader script
   | ["reach"; d; r] ->
       let (deps, n) = depfun d in
       let roots = List.map nat_of_int (ints r) in
